@@ -96,3 +96,8 @@ pub fn simd_active() -> bool {
 pub fn simd_active() -> bool {
     false
 }
+
+/// Returns the current `catch_panic` nesting level of the calling thread.
+pub fn panic_catcher_level() -> u64 {
+    crate::panic::verif_panic_catcher_level()
+}
